@@ -123,6 +123,9 @@ func poolAddEntry(c *core.Ctx, e pooledEval) {
 	if strings.Contains(src, "shuffle") || strings.Contains(src, "rand") {
 		return // the only results that may vary
 	}
+	if strings.Contains(e.want, "textwire-dump") {
+		return // what @dump writes is fixed by no statement (for a failing argument it shows the fault, path included)
+	}
 	p, _ := c.State["eval-pool"].(*evalPool)
 	if p == nil {
 		p = &evalPool{stride: 1}
